@@ -178,6 +178,9 @@ func genC01(g *Gen) {
 			if i%10 == 0 {
 				g.add("phytextenc " + f)
 			}
+			if i%4 == 1 {
+				g.add("phytextrt " + f)
+			}
 		}
 	}
 	// decode FOpts / FRMPayload as commands
